@@ -47,7 +47,9 @@ JudgeUnit(B, U) ==
             IN /\ SelectSeq(lw, LAMBDA x : x[1] >= lo /\ x[1] < hi) = AbsEls(MemA(els, pt, B.pre, B.post, lo, hi))       \* exactly the active members, in order, payloads equal
                /\ \A x \in SeqToSet(lw) : x \in SeqToSet(AbsEls(Mem(els, pt, B.pre, B.post, lo, hi)))>>,               \* anything else is an inactive halo member
      <<"P:C08:active-clipped", (okU /\ B.rel = 0) => \A k \in 1..Len(got) : U.res[k].act = ActOf(partOf(got[k]), lo, hi)>>,
-     <<"S:active-relative", (okU /\ B.rel = 1) => \A k \in 1..Len(got) : U.res[k].act = ActOf(partOf(got[k]), lo, hi)>>,
+     \* with relative coordinates the active range is relative to the partition start as well
+     <<"P:C08:active-clipped", (okU /\ B.rel = 1) => \A k \in 1..Len(got) :
+            LET a == ActOf(partOf(got[k]), lo, hi) IN U.res[k].act = <<a[1] - got[k], a[2] - got[k]>> >>,
      <<"S:exact-upper", got = [j \in 1..Len(may) |-> may[j][1]]>> >>)
 
 Judge(B) ==
